@@ -96,6 +96,7 @@ def run(ctx):
     ctx.rule("C39.R2", "rotation: shift amounts complementary, direction, masking, count reduction", floor=8)
     ctx.rule("C39.R3", "sign bit = 1<<(bits-1), base = 1<<bits, masks = pow2-1; signed/unsigned wrappers", floor=8)
     ctx.rule("C39.R4", "encode_imm32 constants are mutually consistent", floor=4)
+    _finite_model(ctx)
 
     # ---- R1 trip counts -------------------------------------------------
     for qual, exact in (("reverse_bits", True), ("popcnt", True), ("clz", False), ("ctz", False), ("value_to_bits", True)):
@@ -259,3 +260,55 @@ def _anc39(n):
         out.append(n)
         n = getattr(n, "_parent", None)
     return out
+
+
+def _finite_model(ctx):
+    """R5: the helpers are pure functions of small integers, parametric in the width.  Their ASTs are evaluated
+    (sa/minieval) for every width 1..6 over every value of that width (and a margin of out-of-range values for the
+    wrapping functions) and compared with the arithmetic definition.  This does not depend on how the helper is
+    written - only on what it computes - and is exhaustive for the widths covered."""
+    from .. import minieval
+    ctx.rule("C39.R5", "finite model: for every width 1..6 and every operand of that width, to_signed / to_unsigned / correct wrap modulo 2^w, rotl / rotr rotate within w bits, clz / ctz / popcnt / reverse_bits count and mirror the w bits, sign_extend reinterprets bit w-1 as the sign, inrange is the signed w-bit interval", floor=10)
+    mod = ctx.project.module(F)
+    funcs = {q: f for q, f in mod.defs.items() if isinstance(f, ast.FunctionDef) and "." not in q}
+    env = {"__funcs__": funcs}
+    W = range(1, 7)
+
+    def spec_signed(v, w):
+        return ((v + (1 << (w - 1))) % (1 << w)) - (1 << (w - 1))
+    specs = {
+        "to_unsigned": (lambda w: [(v, w) for v in range(-(2 << w), (2 << w) + 1)], lambda v, w: v % (1 << w)),
+        "to_signed": (lambda w: [(v, w) for v in range(-(2 << w), (2 << w) + 1)], spec_signed),
+        "correct": (lambda w: [(v, w, s) for v in range(-(2 << w), (2 << w) + 1) for s in (True, False)], lambda v, w, s: spec_signed(v, w) if s else v % (1 << w)),
+        "rotl": (lambda w: [(v, c, w) for v in range(1 << w) for c in range(0, 2 * w + 1)], lambda v, c, w: ((v << (c % w)) | (v >> (w - c % w))) & ((1 << w) - 1)),
+        "rotr": (lambda w: [(v, c, w) for v in range(1 << w) for c in range(0, 2 * w + 1)], lambda v, c, w: ((v >> (c % w)) | (v << (w - c % w))) & ((1 << w) - 1)),
+        "clz": (lambda w: [(v, w) for v in range(1 << w)], lambda v, w: w - v.bit_length()),
+        "ctz": (lambda w: [(v, w) for v in range(1 << w)], lambda v, w: w if v == 0 else (v & -v).bit_length() - 1),
+        "popcnt": (lambda w: [(v, w) for v in range(1 << w)], lambda v, w: bin(v).count("1")),
+        "reverse_bits": (lambda w: [(v, w) for v in range(1 << w)], lambda v, w: int(format(v, "0%db" % w)[::-1], 2)),
+        "sign_extend": (lambda w: [(v, w) for v in range(-(2 << w), (4 << w) + 1)], lambda v, w: spec_signed(v % (1 << w), w)),
+        "inrange": (lambda w: [(v, w) for v in range(-(2 << w), (2 << w) + 1)], lambda v, w: -(1 << (w - 1)) <= v < (1 << (w - 1))),
+    }
+    for name, (dom, spec) in sorted(specs.items()):
+        f = funcs.get(name)
+        site = "%s:%s" % (F, name)
+        if f is None:
+            ctx.ob("C39.R5", site, "helper %s exists" % name, False, construct="model:" + name)
+            continue
+        bad, n = [], 0
+        try:
+            for w in W:
+                for args in dom(w):
+                    n += 1
+                    got = minieval.call(f, list(args), env)
+                    want = spec(*args)
+                    if got != want or isinstance(got, bool) != isinstance(want, bool):
+                        bad.append("%s%r = %r (expected %r)" % (name, tuple(args), got, want))
+                        if len(bad) > 3:
+                            raise StopIteration
+        except StopIteration:
+            pass
+        except minieval.Undecidable as e:
+            ctx.undecided("C39.R5", site, "%s could not be evaluated: %s" % (name, e))
+            continue
+        ctx.ob("C39.R5", site, "%s agrees with its arithmetic definition on all %d operand tuples of widths 1..6" % (name, n), not bad, construct="model:" + name, detail="; ".join(bad[:3]))
